@@ -36,10 +36,11 @@ type c09Job struct {
 }
 
 type c09Sub struct {
-	Via   string        `json:"via"` // Schedule | ScheduleWithTimeout | Invoke | InvokeWithTimeout
-	Job   c09Job        `json:"job"`
-	T     time.Duration `json:"timeout,omitempty"`
-	Pause time.Duration `json:"pause,omitempty"`
+	Via      string        `json:"via"` // Schedule | ScheduleWithTimeout | Invoke | InvokeWithTimeout
+	NilFirst bool          `json:"a_nil_job_is_scheduled_right_before,omitempty"`
+	Job      c09Job        `json:"job"`
+	T        time.Duration `json:"timeout,omitempty"`
+	Pause    time.Duration `json:"pause,omitempty"`
 }
 
 type c09Scenario struct {
@@ -191,6 +192,7 @@ func genC09(t *simrt.Tape, tier string) Scenario {
 			if t.Bool(1, 4) {
 				sb.Pause = c09Dur(t, sc.Unit)
 			}
+			sb.NilFirst = t.Bool(1, 10)
 			subs = append(subs, sb)
 		}
 		sc.Submitters = append(sc.Submitters, subs)
@@ -325,6 +327,13 @@ func (sc *c09Scenario) Run(s *simrt.Sim) {
 		ths = append(ths, s.Go(name, func() {
 			for _, sb := range subs {
 				sb := sb
+				if sb.NilFirst {
+					// a nil job right in front of the real one: nothing to run for it, and it must not disturb the
+					// jobs queued behind it
+					nrec, _ := mkJob(c09Job{Kind: "nil"})
+					nrec.sub = h.Do(name, "Schedule(nil)", nrec.id, func() (interface{}, error) { return nil, pool.Schedule(nil) })
+					sc.probes["nil-job-scheduled"]++
+				}
 				rec, job := mkJob(sb.Job)
 				switch sb.Via {
 				case "Schedule":
@@ -395,7 +404,7 @@ func (sc *c09Scenario) Run(s *simrt.Sim) {
 					if j.panicVal == val {
 						continue
 					}
-					if j.sub.Name != "Invoke" && j.sub.Err == nil && j.sub.Panic == "" && len(j.ends) == 0 {
+					if j.sub.Name != "Invoke" && j.spec.Kind != "nil" && j.sub.Err == nil && j.sub.Panic == "" && len(j.ends) == 0 {
 						return false
 					}
 				}
@@ -424,7 +433,7 @@ func (sc *c09Scenario) Run(s *simrt.Sim) {
 			if j.sub == nil || !j.sub.Returned {
 				return false
 			}
-			if j.sub.Name != "Invoke" && j.sub.Err == nil && j.sub.Panic == "" && len(j.ends) == 0 {
+			if j.sub.Name != "Invoke" && j.spec.Kind != "nil" && j.sub.Err == nil && j.sub.Panic == "" && len(j.ends) == 0 {
 				return false
 			}
 		}
@@ -485,8 +494,8 @@ func (sc *c09Scenario) Check(res *simrt.Result) []Violation {
 	}
 	var evs []ev
 	for _, j := range sc.jobs {
-		if j.sub == nil {
-			continue
+		if j.sub == nil || j.spec.Kind == "nil" {
+			continue // (a nil job has nothing to run; it only occupies a queue slot for the capacity reasoning below)
 		}
 		// (ii) at most once
 		if len(j.starts) > 1 {
